@@ -2,36 +2,14 @@
 package main
 
 import (
-	"flag"
-	"fmt"
-	"os"
-
+	"github.com/drand/drand/v2/zzverif/cli"
 	"github.com/drand/drand/v2/zzverif/engtime"
 	"github.com/drand/drand/v2/zzverif/extract"
 )
 
 func main() {
-	if len(os.Args) < 2 {
-		fmt.Fprintln(os.Stderr, "usage: zzv <engine> [flags]")
-		os.Exit(2)
-	}
-	fs := flag.NewFlagSet(os.Args[1], flag.ExitOnError)
-	out := fs.String("out", ".", "output directory")
-	seed := fs.Int64("seed", 1, "PRNG seed")
-	tier := fs.String("tier", "quick", "quick|thorough")
-	repo := fs.String("repo", "/repo", "repository root")
-	_ = fs.Parse(os.Args[2:])
-	var err error
-	switch os.Args[1] {
-	case "extract":
-		err = extract.Run(*repo, *out)
-	case "time":
-		err = engtime.Run(*out, *seed, *tier)
-	default:
-		err = fmt.Errorf("unknown engine %q", os.Args[1])
-	}
-	if err != nil {
-		fmt.Fprintln(os.Stderr, "zzv:", err)
-		os.Exit(3)
-	}
+	cli.Main(map[string]cli.RunFn{
+		"extract": func(out string, _ int64, _ string) error { return extract.Run(cli.Repo, out) },
+		"time":    engtime.Run,
+	})
 }
